@@ -14,6 +14,7 @@ func init() {
 		Assumptions: trustedBase,
 		Run: func(m *Model, s *Sink) {
 			m.RunRegistry(s, "R-REGISTRY")
+			m.RunHasCustomCases(s, "R-REGISTRY")
 			m.RunValSiblings(s, "R-VAL")
 			ec := m.Method("evaluator", "Evaluator", "evalCallExp")
 			if ec != nil {
